@@ -66,7 +66,12 @@ def main():
         sfx = '' if len(backs) == 1 else ' #%d' % (bi + 1)
         hyb = pre + E.small(pb_['pc'])
         rd = LPi['reads']
-        for nm, code, spec in (('U1', lift(rd['u1']), U1), ('U2', lift(rd['u2']), U2), ('L', lift(rd['omega']), Lsp), ('lambda0', lift(LPi['entry']['lon']), Lsp)):
+        # named temporaries of the setup (when the code still has them under these names; the loop-body obligations below do not depend on names)
+        for nm, key_, spec, src in (('U1', 'u1', U1, rd), ('U2', 'u2', U2, rd), ('L', 'omega', Lsp, rd), ('lambda0', 'lon', Lsp, LPi['entry'])):
+            if key_ not in src:
+                P.notes.append('vincinv: no temporary named %r reaches the loop any more; clause vincinv.%s is carried by the loop-body obligations' % (key_, nm))
+                continue
+            code = lift(src[key_])
             P.oblige('vincinv.' + nm, 'geodesy.vincinv', 'setup' + sfx, E.prove_eq(code, spec, hyb), code=code, spec=spec, hyps=hyb)
         lh = lift(LPi['head']['lon'])
         new, aux = V.inverse_step(U1, U2, lh, Lsp, f_, MSym)
@@ -106,7 +111,8 @@ def main():
             H = A_.assume(pre + p['pc'])
             d = A_.ab(new - lh)
             t12 = z3.Q(1, 10 ** 12)
-            P.oblige('vincinv.lambda_exit', 'geodesy.vincinv', tag, E.prove(z3.And(d < t12, d > -t12), H + A_.side, use_axioms=False, timeout=15000), strict=True)
+            P.oblige('vincinv.lambda_exit', 'geodesy.vincinv', tag, E.prove(z3.And(d < t12, d > -t12), H + A_.side, use_axioms=False, timeout=15000), strict=True,
+                     goal=z3.And(new - lh < t12, new - lh > -t12), hyps=pre + list(p['pc']))
         P.oblige('vincinv.distance', 'geodesy.vincinv', tag, E.prove_eq(d_c, r3(s_sp), hy), code=d_c, spec=r3(s_sp), hyps=hy,
                  note='s = b A (sigma - delta_sigma) with A, B from the a, b of the ellipsoid argument')
         sp12 = r9(az1d + 360) if neg else r9(az1d)
@@ -115,6 +121,7 @@ def main():
         H = A_.assume(pre + p['pc'])
         azv = A_.ab(az1d)
         P.oblige('vincinv.azimuth_wrap', 'geodesy.vincinv', tag, E.prove((azv < 0) if neg else (azv >= 0), H + A_.side, use_axioms=False), strict=True,
+                 goal=(az1d < 0) if neg else (az1d >= 0), hyps=pre + list(p['pc']),
                  note='360 is added exactly when the forward azimuth is negative: result in [0, 360)')
         P.oblige('vincinv.azimuth2to1', 'geodesy.vincinv', tag, E.prove_eq(a21, r9(az2 * 180 / PI + 180), hy), code=a21, spec=r9(az2 * 180 / PI + 180), hyps=hy)
     P.loops.append(dict(loop='geodesy.vincinv#for1 (lambda iteration, range(1000) with break)', cut='havoc/try-break/back + exhausted fork',
